@@ -32,7 +32,8 @@ RULE = ("histories (<= 6 calls quick, <= 8 thorough) of start/join/join(timeout)
         "+ the environment event `tick`, over 6 wrapper kinds (Application stub, LocalApp, ClustalO, MUSCLE3, MUSCLE5, "
         "MAFFT) x 10 scripted behaviours of the external program (ok, reordered, 5 kinds of garbage, exit 3, hang, "
         "missing binary) x protein/nucleotide/custom-alphabet inputs; half template-based (every way a run can end), "
-        "half random; the bare Application stub additionally gets all histories up to length 3 (thorough: 4). "
+        "half random; the bare Application stub additionally gets all histories up to length 3 (thorough: 4), MafftApp all "
+        "histories up to length 3 containing a start x every tool (thorough). "
         "non-trivial = the history contains a start; distinct = different (new line, op list)")
 TRUSTED = ["the operating system (process creation/kill, files, cwd) and subprocess.Popen are observed, not modelled beyond "
            "'launch fails | child alive | child exited'",
@@ -688,6 +689,54 @@ def run_impl(case):
 
 
 # ---------------------------------------------------------------- property oracle (independent of the model)
+def _oracle_cleanup_raises(case):
+    """Oracle-only regression (no `ops`): a subclass whose clean_up() relies on a started run (like the sra apps'
+    `self._process.kill()`) must not mask the launch error: start() raises the *launch* error, the state is CANCELLED,
+    clean_up() was entered exactly once, a second start()/cancel() is refused."""
+    from biotite.application.application import Application, AppStateError
+    entered = []
+
+    class Bad(Application):
+        def run(self):
+            raise FileNotFoundError("no such binary")
+
+        def is_finished(self):
+            return False
+
+        def wait_interval(self):
+            return 0.001
+
+        def evaluate(self):
+            pass
+
+        def clean_up(self):
+            entered.append(1)
+            self._process.kill()          # AttributeError: never launched
+
+    app = Bad()
+    v = []
+    try:
+        app.start()
+        v.append(("C20/launch-failure/start-succeeded", "start() returned although run() raised"))
+    except FileNotFoundError:
+        pass
+    except Exception as e:  # noqa: BLE001
+        v.append(("C20/launch-failure/error-masked-by-clean_up", f"start() raised {type(e).__name__} instead of the launch error"))
+    if app._state.name != "CANCELLED" or len(entered) != 1:
+        v.append(("C20/leak/launch-failure/base", f"after the failed launch: state={app._state.name} clean_up entered {len(entered)}x"))
+    for name in ("start", "cancel", "join"):
+        try:
+            getattr(app, name)()
+            v.append((f"C20/lifecycle/accepted-but-forbidden/{name}@CANCELLED", f"{name}() accepted after a failed launch"))
+        except AppStateError:
+            pass
+        except Exception as e:  # noqa: BLE001
+            v.append((f"C20/lifecycle/accepted-but-forbidden/{name}@CANCELLED", f"{name}() raised {type(e).__name__}"))
+    if len(entered) != 1:
+        v.append(("C20/cleanup-twice/launch-failure", f"clean_up entered {len(entered)}x"))
+    return v
+
+
 def oracle(case):
     """Directly from the property statement, on the observed trace of the real code:
     (1) a call succeeds iff the documented life cycle allows it in the state the wrapper was in, otherwise AppStateError;
@@ -695,6 +744,8 @@ def oracle(case):
     (3) result getters succeed only after a successful join and return what the fake program logged, in input order;
     (4) once a run has ended (start raised / join returned or raised / cancel returned) clean_up ran exactly once and no
         child, temp file or changed cwd is left; clean_up never runs twice."""
+    if case.get("kind") == "cleanup-raises":
+        return _oracle_cleanup_raises(case)
     key = json.dumps(case["ops"])
     trace = _TRACE_CACHE.pop(key, None)
     if trace is None:
@@ -846,10 +897,20 @@ def _exhaustive_base(maxlen):
                 yield _mk(f"new base {tool} 2 prot", list(ops), "base-exhaustive")
 
 
+def _exhaustive_wrapper(wrapper, maxlen):
+    """Thorough tier: every history up to maxlen over the six core ops x every tool, for one real wrapper."""
+    import itertools
+    for tool in TOOLS:
+        for n in range(1, maxlen + 1):
+            for ops in itertools.product(CORE_OPS, repeat=n):
+                if "start" in ops:           # without a start nothing but refusals happens (covered by `base`)
+                    yield _mk(f"new {wrapper} {tool} 3 prot", list(ops), wrapper + "-exhaustive")
+
+
 def cases(rng, tier):
     quick = tier == "quick"
     maxlen = 6 if quick else 8
-    n_tmpl, n_rand = (300, 300) if quick else (3000, 5000)
+    n_tmpl, n_rand = (300, 300) if quick else (3000, 4000)
     # every guarded method once in every reachable state (one wrapper per method owner)
     seen = set()
     out = []
@@ -871,6 +932,9 @@ def cases(rng, tier):
             add(_mk(f"new {wrapper} ok 3 prot", pre + ["call " + m for m in own], "methods"))
     for c in _exhaustive_base(3 if quick else 4):
         if not quick or len(c["ops"]) <= 3 or rng.random() < 0.12:
+            add(c)
+    if not quick:
+        for c in _exhaustive_wrapper("mafft", 3):
             add(c)
     for _ in range(n_tmpl):
         wrapper = rng.choice(WRAPPERS)
@@ -901,12 +965,16 @@ def corpus():
         # DESIGN §8 row 26: failed launch must restore cwd, clean up, leave a terminal state
         {"kind": "regression", "ops": ["new clustalo missing 3 prot", "call set_exec_dir", "start", "cancel", "start"]},
         {"kind": "regression", "ops": ["new local missing 2 prot", "call set_exec_dir", "start"]},
+        # ... and a subclass clean_up() that raises after the failed launch must not mask the launch error (oracle-only)
+        {"kind": "cleanup-raises"},
         # MAFFT clean_up
         {"kind": "regression", "ops": ["new mafft ok 3 prot", "start", "tick", "join -", "call get_alignment"]},
         {"kind": "regression", "ops": ["new mafft ok 3 prot", "start", "cancel"]},
         {"kind": "regression", "ops": ["new mafft hang 3 nuc", "start", "join t"]},
         # refused call must not poll
         {"kind": "regression", "ops": ["new local ok 2 prot", "start", "tick", "call get_exit_code", "call get_exit_code"]},
+        # output whose rows do not have the input's symbol counts must be rejected
+        {"kind": "regression", "ops": ["new mafft garbage_length 3 generic", "start", "tick", "join -", "call get_alignment"]},
         # reordered output, custom alphabet
         {"kind": "regression", "ops": ["new muscle3 reorder 4 generic", "start", "tick", "state", "join -", "call get_alignment",
                                        "call get_alignment_order"]},
@@ -914,16 +982,18 @@ def corpus():
 
 
 def nontrivial(case, impl_out):
-    return "start" in case["ops"]
+    return "start" in case.get("ops", ["start"])
 
 
 def signature(case):
-    return "|".join(case["ops"])
+    return "|".join(case.get("ops", [case.get("kind", "?")]))
 
 
 def distribution(cases, impl_outs):
     wr, tools, ends, results = {}, {}, {}, {}
     for c, o in zip(cases, impl_outs):
+        if not c.get("ops"):
+            continue
         w = c["ops"][0].split()
         wr[w[1]] = wr.get(w[1], 0) + 1
         tools[w[2]] = tools.get(w[2], 0) + 1
@@ -942,6 +1012,8 @@ def search(rng, problems, tier):
 
 def shrink(case, key):
     from common import util
+    if not case.get("ops"):
+        return case
     head, ops = case["ops"][0], case["ops"][1:]
 
     def fails(sub):
